@@ -7,6 +7,7 @@ import (
 	"io"
 	"regexp"
 	"testing"
+	"time"
 
 	lz4 "github.com/pierrec/lz4/v4"
 	"pgregory.net/rapid"
@@ -309,11 +310,22 @@ func TestC02Pinned(t *testing.T) {
 			}
 		}
 	}
-	// legacy, concurrent writer, two and more incompressible 8 MiB blocks in flight
-	for _, wconc := range []int{1, 4} {
-		c := c02Case{Opts: wopts{BS: 4, Conc: wconc, Legacy: true}, Data: gen.Data{Segs: []gen.Seg{{K: "rand", N: 17<<20 + 100, S: 31}}},
-			Del: delivery{Mode: "write", Chunks: []int{3 << 20}, Flush: []bool{false}}, R: rcfg{Conc: 4, WriteTo: true}}
-		pinned(t, "C02", "C02/roundtrip", c, runC02)
+	// legacy, concurrent writer, two and more incompressible 8 MiB blocks in flight. The goroutine that writes the blocks out is
+	// held back for 30 ms per block (hook sites 6 and 7, real time: this check does not run in a bubble), so that the workers
+	// of the following blocks have finished before the earlier block is written, whatever the load of the machine
+	{
+		slow := func(site int) {
+			if site == 6 || site == 7 {
+				time.Sleep(30 * time.Millisecond)
+			}
+		}
+		yieldHook.Store(&slow)
+		for _, wconc := range []int{1, 4, 2} {
+			c := c02Case{Opts: wopts{BS: 4, Conc: wconc, Legacy: true}, Data: gen.Data{Segs: []gen.Seg{{K: "rand", N: 25<<20 + 100, S: 31}}},
+				Del: delivery{Mode: "write", Chunks: []int{3 << 20}, Flush: []bool{false}}, R: rcfg{Conc: 4, WriteTo: true}}
+			pinned(t, "C02", "C02/roundtrip", c, runC02)
+		}
+		yieldHook.Store(nil)
 	}
 	// legacy, incompressible blocks that are almost full (their compressed form does not fit a block-sized buffer)
 	for _, n := range []int{8<<20 - 1, 8356000, 16<<20 - 1, 8<<20 + 8370000} {
